@@ -22,11 +22,12 @@ Abs(st, I, now) ==
    casc   |-> [x \in I |-> IF x \in M THEN Range(st.e[x].cd) ELSE {}],
    member |-> [x \in I |-> IF x \in M THEN Member(st, x) ELSE {}],
    rdmo   |-> [x \in I |-> IF x \in M THEN Rdmo(st, x) ELSE {}],
-   name   |-> [x \in I |-> IF x \in M /\ Len(st.e[x].n) = 1 THEN st.e[x].n[1] ELSE ""]]
+   name   |-> [x \in I |-> IF x \in M /\ Len(st.e[x].n) = 1 THEN st.e[x].n[1] ELSE ""],
+   dmo    |-> [x \in I |-> IF x \in M THEN Dmo(st, x) ELSE {}]]
 HX(I) == [del |-> [x \in I |-> G(h.del, x, 0)], ts |-> [x \in I |-> G(h.ts, x, 0)],
           want |-> [x \in I |-> G(h.want, x, {})], dep |-> [x \in I |-> G(h.dep, x, {})],
-          rf |-> [x \in I |-> G(h.rf, x, {})]]
-H0 == [del |-> <<>>, ts |-> <<>>, want |-> <<>>, dep |-> <<>>, rf |-> <<>>]
+          rf |-> [x \in I |-> G(h.rf, x, {})], dm |-> [x \in I |-> G(h.dm, x, {})]]
+H0 == [del |-> <<>>, ts |-> <<>>, want |-> <<>>, dep |-> <<>>, rf |-> <<>>, dm |-> <<>>]
 EmptySt == [e |-> <<>>, lvx |-> <<>>]
 
 IdsOf(r, pst) == ModelIds(r.st) \cup (IF Starts(r) THEN {} ELSE ModelIds(pst))
@@ -50,7 +51,16 @@ Parts(r, pst) ==   \* the conjuncts of L1 with a name each
     <<"revive-incomplete", (rev /\ r.res = "ok") => ReviveOk(p, q, hx, r.id)>>,
     <<"revive-refused", (rev /\ Unobstructed(p, hx, r.id)) => r.res = "ok">> >>
 LineL1(r, pst) == \A i \in 1..4 : Parts(r, pst)[i][2]
-Sig(r, pst) == LET P == Parts(r, pst) i == CHOOSE j \in 1..4 : ~P[j][2] IN P[i][1] \o " after=" \o r.a
+\* a revive that restored exactly the memberships the entry's stored directmemberof listed when it was
+\* deleted, but not a group that listed it as member: the inexactness is upstream (property C17)
+Unrecorded(r, pst) ==
+  LET I == IdsOf(r, pst)  p == Abs(pst, I, 0)  q == Abs(r.st, I, r.t)  hx == HX(I)  x == r.id
+      miss == {g \in hx.want[x] : q.lv[g] = "live" /\ x \notin q.member[g]}
+  IN  /\ q.lv[x] = "live" /\ miss # {} /\ miss \cap hx.dm[x] = {}
+      /\ \A d \in hx.dep[x] : (p.lv[d] = "recycled" /\ p.casc[d] = {x}) => (q.lv[d] = "live" /\ x \in q.refers[d])
+Sig(r, pst) == LET P == Parts(r, pst) i == CHOOSE j \in 1..4 : ~P[j][2] IN
+  IF i = 3 /\ Unrecorded(r, pst) THEN "revive-incomplete membership-unrecorded"
+  ELSE P[i][1] \o " after=" \o r.a
 
 \* ------------------------------------------ L2 on a line ------------------------------------------
 Predict(r, p0, q, hx) ==
@@ -73,7 +83,7 @@ LineL2(r, pst) ==
 Upd(r, pst) ==
   IF Starts(r) THEN
        LET I == ModelIds(r.st)  q == Abs(r.st, I, r.t)  e == Abs(EmptySt, I, 0)
-       IN  Hist([del |-> [x \in I |-> 0], ts |-> [x \in I |-> 0], want |-> [x \in I |-> {}], dep |-> [x \in I |-> {}], rf |-> [x \in I |-> {}]], e, q)
+       IN  Hist([del |-> [x \in I |-> 0], ts |-> [x \in I |-> 0], want |-> [x \in I |-> {}], dep |-> [x \in I |-> {}], rf |-> [x \in I |-> {}], dm |-> [x \in I |-> {}]], e, q)
   ELSE LET I == IdsOf(r, pst) IN Hist(HX(I), Abs(pst, I, 0), Abs(r.st, I, r.t))
 
 Init == l = 1 /\ h = H0
